@@ -398,7 +398,7 @@ def h_seq(shape):
         amp = inp.real("amp", 0, 100)
         det = inp.fix("det", 7, -2000, 400)
         call = shape["call"]
-        name = {"add_g": "g", "add_l": "l", "add_dmm": "dmm_0", "add_dmm2": "dmm_0_1", "eom": "g", "eom_det": "g"}[call]
+        name = {"add_g": "g", "add_l": "l", "add_dmm": "dmm_0", "add_dmm2": "dmm_0_1", "eom": "g", "eom_det": "g", "eom_drift": "g"}[call]
         ch = seq.declared_channels[name]
         try:
             if call in ("add_g", "add_l"):
@@ -410,6 +410,10 @@ def h_seq(shape):
                 seq.enable_eom_mode("g", amp, inp.real("det_on", -260, 260))
                 seq.add_eom_pulse("g", d, 0.0)
                 seq.delay(16, "g")
+            elif call == "eom_drift":
+                # an EOM pulse whose phase is corrected for the drift accumulated so far: a pulse like any other for the limits
+                seq.enable_eom_mode("g", amp, 0.0, -1.0)
+                seq.add_eom_pulse("g", d, 0.0, correct_phase_drift=True)
             else:
                 seq.enable_eom_mode("g", amp, 0.0, 0.0)
                 seq.add_eom_pulse("g", d, 0.0)
@@ -423,7 +427,7 @@ def h_seq(shape):
             w = [1.0, 0.5, 0.25] if call == "add_dmm" else [0.125, 0.0, 0.125]
             val_in = AND(det <= 0, max(w) * det >= ch.bottom_detuning, sum(w) * det >= ch.total_bottom_detuning)
             val_in_sl = AND(det <= 5e-7, max(w) * (det - 5e-7) >= ch.bottom_detuning - 1e-6, sum(w) * (det - 5e-7) >= ch.total_bottom_detuning - 1e-5)
-        elif call == "eom":
+        elif call in ("eom", "eom_drift"):
             val_in = amp <= ch.max_amp
             val_in_sl = val_in
         else:
@@ -448,9 +452,14 @@ def h_seq(shape):
             obs.append(("seq:scheduled_duration", AND(L == up, L % clock == 0, L >= ch.min_duration)))
             obs.append(("seq:scheduled_within_value_limits", val_in_sl))
             obs.append(("seq:scheduled_values_unchanged", AND(
-                facade._unwrap0(p.detuning._value) == (det if call != "eom" else 0.0),
+                facade._unwrap0(p.detuning._value) == (det if call not in ("eom", "eom_drift") else 0.0),
                 facade._unwrap0(p.amplitude._value) == (amp if call not in ("add_dmm", "add_dmm2") else 0.0))))
             obs.append(("seq:requested_duration_within_limits", dur_in))
+            if seq.device.max_sequence_duration is not None:
+                obs.append(("seq:within_max_sequence_duration", AND(*[cs.slots[-1].tf <= seq.device.max_sequence_duration
+                                                                     for cs in seq._schedule.values()])))
+        elif seq.device.max_sequence_duration is not None:
+            pass  # (the refusal may come from the sequence duration: no claim on this side)
         else:
             # a refusal needs a cause among the documented limits (max_sequence_duration is None on this device)
             obs.append(("seq:inside_is_accepted", NOT(AND(dur_in, val_in, up <= ch.max_duration if False else True))))
@@ -603,6 +612,10 @@ def kernels(tier):
     ks.append(("seq", dict(device="virt", call="add_g", prior=True, protocol="wait-for-all")))
     for prior in (False, True):
         ks.append(("seq", dict(device="virt", call="eom_det", prior=prior, rem=0)))
+        ks.append(("seq", dict(device="virt", call="eom_drift", prior=prior, rem=0)))
+        # ... and on a device that limits the duration of the whole sequence
+        for call in ("add_g", "add_l", "eom", "eom_drift"):
+            ks.append(("seq", dict(device="virt_maxseq", call=call, prior=prior, rem=0)))
     # shaped waveforms whose duration is not a clock multiple (clock 4): lengthened by Sequence.add
     for d in ((10, 13) if tier == "quick" else (9, 10, 13, 18, 23)):
         ks.append(("seqwf", dict(wf="kaiser", d=d, beta=2.0)))
